@@ -10,7 +10,7 @@ use crate::refmodel::pillar::*;
 use crate::refmodel::terms::*;
 use tyme4rs::tyme::jd::JulianDay;
 use tyme4rs::tyme::sixtycycle::SixtyCycleDay;
-use tyme4rs::tyme::Culture;
+use tyme4rs::tyme::{Culture, Tyme};
 
 fn check_day(ctx: &Ctx, civ: &Civil, ord: usize, first_term_day: usize, loc: &mut Local) {
   let d = civ.date(ord);
@@ -69,10 +69,22 @@ fn check_day(ctx: &Ctx, civ: &Civil, ord: usize, first_term_day: usize, loc: &mu
     loc.transitions += 2;
     let r = guard(|| {
       let sd = mk(d);
-      (SixtyCycleDay::from_solar_day(sd).get_sixty_cycle().get_name(), sd.get_lunar_day().get_sixty_cycle_day().get_sixty_cycle().get_name(), ymd_of(&sd.get_sixty_cycle_day().get_solar_day()))
+      // a lunar day whose views are filled, stepped back one day and forward again: both views of the result
+      let ld = sd.get_lunar_day();
+      let _ = ld.get_sixty_cycle_day();
+      let _ = ld.get_solar_day();
+      // (not in the first year: the sexagenary-day view of the day before the first term day needs a term of 1 BC)
+      let p = if ord > 400 { ld.next(-1) } else { ld.next(1) };
+      let _ = p.get_sixty_cycle_day();
+      let n = if ord > 400 { p.next(1) } else { p.next(-1) };
+      let stepped = if n.get_sixty_cycle_day().get_sixty_cycle().get_name() == n.get_sixty_cycle().get_name() && ymd_of(&n.get_solar_day()) == ymd_of(&sd) { n.get_sixty_cycle().get_name() } else { format!("{} / {} on {}", n.get_sixty_cycle_day().get_sixty_cycle().get_name(), n.get_sixty_cycle().get_name(), n.get_solar_day()) };
+      (SixtyCycleDay::from_solar_day(sd).get_sixty_cycle().get_name(), sd.get_lunar_day().get_sixty_cycle_day().get_sixty_cycle().get_name(), ymd_of(&sd.get_sixty_cycle_day().get_solar_day()), stepped)
     });
     match r {
-      Ok((a, b, back)) => {
+      Ok((a, b, back, stepped)) => {
+        if stepped != want_p {
+          ctx.violation("pillar_route", format!("{} stepped", fmt_ymd(d)), format!("lunar day (views filled).next(-1) (view filled).next(1): sexagenary-day view / lunar-day pillar = {}; model {}", stepped, want_p), vec!["day".to_string(), d.0.to_string(), d.1.to_string(), d.2.to_string()]);
+        }
         if a != want_p || b != want_p || back != d {
           ctx.violation("pillar_route", fmt_ymd(d), format!("SixtyCycleDay::from_solar_day = {}, LunarDay::get_sixty_cycle_day = {}, SixtyCycleDay::get_solar_day = {}; model {} on {}", a, b, fmt_ymd(back), want_p, fmt_ymd(d)), vec!["day".to_string(), d.0.to_string(), d.1.to_string(), d.2.to_string()]);
         }
